@@ -113,20 +113,31 @@ def _pair(ctx, rule, inst, b, acquire_bbs, release_bbs, cut_edges, what_ok, what
 
 
 def _bool_switch_of_call(b, call_bb):
-    """the boolean switch testing the result of the call at call_bb: returns (switch_bb, zero_target, nonzero_target)"""
+    """the boolean switch testing the result of the call at call_bb: returns (switch_bb, target taken when the call
+    returned false, target taken when it returned true).  The result may be copied and negated (`let was_full =
+    !buf.can_write()`) before it is switched on."""
     t = b.term(call_bb)
     dest = t["d"][0]
-    # the result may be copied before being switched on
-    aliases = {dest}
-    for bb, idx, s in b.iter_assigns():
-        if s["r"]["k"] == "use" and F.op_local(s["r"]["o"]) in aliases and len(s["p"]) == 1:
-            aliases.add(s["p"][0])
+    aliases = {dest: True}          # local -> same polarity as the call result?
+    changed = True
+    while changed:
+        changed = False
+        for bb, idx, s in b.iter_assigns():
+            if len(s["p"]) != 1 or s["p"][0] in aliases:
+                continue
+            r = s["r"]
+            if r["k"] == "use" and F.op_local(r["o"]) in aliases:
+                aliases[s["p"][0]] = aliases[F.op_local(r["o"])]
+                changed = True
+            elif r["k"] == "un" and r.get("op") == "Not" and F.op_local(r.get("a")) in aliases:
+                aliases[s["p"][0]] = not aliases[F.op_local(r["a"])]
+                changed = True
     for bb in sorted(b.live_blocks()):
         tt = b.term(bb)
         if tt["k"] == "switch" and F.op_local(tt["o"]) in aliases:
             e = flow.switch_edges(b, bb)
             if e:
-                return bb, e[0], e[1]
+                return (bb, e[0], e[1]) if aliases[F.op_local(tt["o"])] else (bb, e[1], e[0])
     return None
 
 
@@ -233,18 +244,27 @@ def wake2(ctx, facts):
         b = bs[0]
         ctx.count(bodies=1)
         dom = b.dominators()
-        wn = [bb for bb, _ in flow.find_calls(b, re.compile(r"OperatingState::<S, C>::wake_next$"))]
+        # a message is consumed where Spare::read / Spare::extend yields Some(m): from that arm every return must pass
+        # wake_next - called directly or through a method of OperatingState that calls it on all of its own paths
+        from rules.C17 import variant_arms
+        wnrx = re.compile(r"OperatingState::<S, C>::wake_next$")
+        always = set()
+        for p_, x in facts.bodies.items():
+            if p_.startswith(UR + "OperatingState::<S, C>::") and x.kind == "AssocFn" and not p_.endswith("::wake_next"):
+                w_ = {bb for bb, _ in flow.find_calls(x, wnrx)}
+                if w_ and (0 in w_ or not any(x.term(r_)["k"] == "ret" for r_ in x.reachable(0, avoid=frozenset(w_)))):
+                    always.add(p_)
+        rel = {bb for bb, t in b.calls() if wnrx.search(F.callee(t)[0] or "") or (F.callee(t)[0] or "") in always}
         n = 0
-        for bb, idx, s in b.iter_assigns():
-            r = s["r"]
-            if r["k"] == "agg" and r.get("adt") == "std::task::Poll" and r["vn"] == "Ready":
-                e = flow.expr_of(b, r["ops"][0])
-                # message-carrying Ready: built from a map_err over a deserialised message (not the EndOfStream error)
-                if e[0] == "call" and re.search(r"Result::<T, E>::map_err$", e[1]):
-                    n += 1
-                    ok = any(flow.dominates(dom, w, bb) for w in wn)
-                    ctx.ob("WAKE-2", f"OperatingState::poll_next:ready#{n}=>wake_next", ok, "a consumed message advances the cursor and wakes the next receiver" if ok else "a message is handed out without wake_next(): the receiver of the next index is never woken", site_of(b, bb, idx))
-        ctx.floor("WAKE-2", "message-carrying Ready returns in OperatingState::poll_next", n, 2)
+        for sw, pl, arms in variant_arms(b, "std::option::Option", facts):
+            src = str(flow.expr_of(b, {"cp": pl}, max_depth=6))
+            if not re.search(r"Spare::(read|extend)", src) or "Some" not in arms:
+                continue
+            n += 1
+            reach = b.reachable(arms["Some"], avoid=frozenset(rel))
+            bad = [x for x in reach if b.term(x)["k"] == "ret"]
+            ctx.ob("WAKE-2", f"OperatingState::poll_next:message#{n}=>wake_next", not bad, "a consumed message advances the cursor and wakes the next receiver" if not bad else "a message is handed out without wake_next(): the cursor does not advance and the receiver of the following record is never woken", site_of(b, sw))
+        ctx.floor("WAKE-2", "message-consuming arms in OperatingState::poll_next", n, 2)
 
 
 def guards(ctx, facts):
@@ -314,14 +334,31 @@ def guards(ctx, facts):
             ctx.missing("GUARD-add", "comparison current < woken_at in WaitingShard::add")
 
 
+
+def _equals_on_grid(e, grid, ref):
+    """does expression e evaluate to ref(values) for every point of the grid {symbol: range}?"""
+    import itertools
+    from rules.C13 import ieval, NoEval
+    keys = list(grid)
+    try:
+        for vals in itertools.product(*[grid[k] for k in keys]):
+            env = dict(zip(keys, vals))
+            if ieval(e, env) != ref(env):
+                return False
+    except NoEval:
+        return False
+    return True
+
+
 def cursors(ctx, facts):
     ctx.rule("WHO-cursor: each cursor field is written only by its owner operation and only with the documented expression (read/write: inc(cursor, _); closed: true in close; woken_at: max(woken_at, i); OperatingState.next: next + 1 in wake_next; OrderingSender.next: fetch_add(_, 1) in next_op)")
     table = [
         ("read", r"CircularBuf", {CB + "take"}, lambda e: e[0] == "call" and e[1].endswith("CircularBuf::inc") and "read" in flow.field_names_in(e[2][1])),
         ("write", r"CircularBuf|circular::Next<", {M + "circular::Next::<'_>::write"}, lambda e: e[0] == "call" and e[1].endswith("CircularBuf::inc") and "write" in flow.field_names_in(e[2][1]) and "write_size" in flow.field_names_in(e[2][2])),
         ("closed", r"CircularBuf", {CB + "close"}, lambda e: e == ("const", 1)),
-        ("woken_at", r"WaitingShard", {OS + "WaitingShard::wake"}, lambda e: e[0] == "call" and e[1] == "std::cmp::max" and "woken_at" in flow.field_names_in(e[2][0]) | flow.field_names_in(e[2][1])),
-        ("next", r"OperatingState<", {UR + "OperatingState::<S, C>::wake_next"}, lambda e: e[0] == "bin" and e[1] == "Add" and ("const", 1) in (e[2], e[3]) and "next" in flow.field_names_in(e)),
+        # evaluated, not matched: any expression equal to max(woken_at, i) / next + 1 on a grid is the documented update
+        ("woken_at", r"WaitingShard", {OS + "WaitingShard::wake"}, lambda e: _equals_on_grid(e, {("arg", 1, "woken_at"): range(0, 6), ("arg", 2): range(0, 6)}, lambda v: max(v[("arg", 1, "woken_at")], v[("arg", 2)]))),
+        ("next", r"OperatingState<", {UR + "OperatingState::<S, C>::wake_next"}, lambda e: _equals_on_grid(e, {("arg", 1, "next"): range(0, 9)}, lambda v: v[("arg", 1, "next")] + 1)),
     ]
     for field, owner, allowed, shape in table:
         ws = flow.field_writes(facts, field, owner)
@@ -472,7 +509,31 @@ def pieces(facts, b, only):
         else:
             e = flow._expr_place(b, [0], 0, 30)
         gs = [f for tgt, f in eg if flow.dominates(dom, tgt, bb)]
+        gs += [f for tgt, f in _checked_sub_facts(b) if flow.dominates(dom, tgt, bb)]
         out.append((bb, gs, flow.inline_calls(facts, e, only=only)))
+    return out
+
+
+def _checked_sub_facts(b):
+    """[(target, fact)] for `match a.checked_sub(b) { Some(d) => .., None => .. }`: the Some arm means a >= b, the None arm a < b"""
+    out = []
+    for bb in b.live_blocks():
+        t = b.term(bb)
+        if t["k"] != "switch":
+            continue
+        e = flow.expr_of(b, t["o"], max_depth=8)
+        if e[0] != "disc":
+            continue
+        v = flow.strip_casts(e[1])
+        if not (v[0] == "call" and re.search(r"::checked_sub$", v[1]) and len(v[2]) == 2):
+            continue
+        a_, b_ = v[2]
+        listed = {int(x): tgt for x, tgt in t["ts"]}
+        some = listed.get(1, t["else"] if 0 in listed else None)
+        none = listed.get(0, t["else"] if 1 in listed else None)
+        if some is not None and none is not None and some != none:
+            out.append((some, ("Ge", a_, b_)))
+            out.append((none, ("Lt", a_, b_)))
     return out
 
 
@@ -572,7 +633,11 @@ def ring_ops(ctx, facts):
     if None in (tb, nb, wb):
         return ctx.missing("RING-ops", "CircularBuf::take / next / Next::write")
     ctx.count(bodies=3)
-    # take
+    # take: decided by evaluation, whatever the syntactic form - (1) the amount d given to range() and inc() is
+    # min(read_size, len()) on a grid; (2) with (start, end) = the bounds of range(read, d), the cells appended to the
+    # result (every extend_from_slice whose dominating guards hold, in program order, each a slice of `data`) are
+    # start, start+1, .. wrapping at N .. end, for every N <= 6 and every (start, end); (3) read := inc(read, d)
+    from rules.C13 import ieval, guard_holds, NoEval
     rg = flow.find_calls(tb, re.compile(r"CircularBuf::range$"))
     ic = flow.find_calls(tb, re.compile(r"CircularBuf::inc$"))
     ok = len(rg) == 1 and len(ic) == 1
@@ -581,45 +646,90 @@ def ring_ops(ctx, facts):
         ra = [flow.expr_of(tb, a, max_depth=20) for a in rg[0][1]["args"]]
         ia = [flow.expr_of(tb, a, max_depth=20) for a in ic[0][1]["args"]]
         d = ra[2]
-        okd = d[0] == "call" and d[1].endswith("cmp::min") and set(map(str, d[2])) == {str(("arg", 1, "read_size")), str(("call", P + "CircularBuf::len", (("arg", 1),)))}
+        RS, LN = ("arg", 1, "read_size"), ("call", P + "CircularBuf::len", (("arg", 1),))
+        okd = _equals_on_grid(d, {RS: range(1, 6), LN: range(0, 8)}, lambda v: min(v[RS], v[LN]))
         oks = ra[1] == ("arg", 1, "read") and ia[1] == ("arg", 1, "read") and ia[2] == d
-        wr = [s for bb, idx, s in tb.iter_assigns() if any(isinstance(e, list) and e[0] == "f" and e[2] == "read" for e in s["p"][1:])]
+        wr = [s_ for bb, idx, s_ in tb.iter_assigns() if any(isinstance(e, list) and e[0] == "f" and e[2] == "read" for e in s_["p"][1:])]
         okw = len(wr) == 1 and "o" in wr[0]["r"] and flow.expr_of(tb, wr[0]["r"]["o"], max_depth=20)[:2] == ("call", P + "CircularBuf::inc")
         ok = okd and oks and okw
-        why = "copies range(read, d), then read = inc(read, d), d = min(read_size, len())" if ok else ("the number of bytes taken is not min(read_size, len())" if not okd else ("the bytes copied and the cursor advance disagree (range(read, d) vs inc(read, d'))" if not oks else "read is not assigned inc(read, d)"))
+        why = "copies range(read, d), then read = inc(read, d), d = min(read_size, len())" if ok else ("the number of bytes taken is not min(read_size, len())" if not okd else ("the bytes copied and the cursor advance disagree (range(read, d) vs inc(read, d'))" if not oks else "the read cursor is not set to inc(read, d)"))
     ctx.ob("RING-ops", "take:copies-what-it-consumes", ok, why, site_of(tb, rg[0][0]) if rg else site_of(tb))
-    # wrap arms of take
-    lt = [(bb, t) for bb, t in flow.find_calls(tb, re.compile(r"PartialOrd::lt$"))]
-    okl = False
-    if len(lt) == 1:
-        a0, a1 = (flow.expr_of(tb, a, max_depth=12) for a in lt[0][1]["args"])
-        okl = a0[0] == "call" and a0[1].endswith("RangeInclusive::<Idx>::end") and a1[0] == "call" and a1[1].endswith("RangeInclusive::<Idx>::start")
-    gt = flow.find_calls(tb, re.compile(r"PartialOrd::gt$"))
-    if not lt and len(gt) == 1:
-        a0, a1 = (flow.expr_of(tb, a, max_depth=12) for a in gt[0][1]["args"])
-        lt = gt
-        okl = a1[0] == "call" and a1[1].endswith("RangeInclusive::<Idx>::end") and a0[0] == "call" and a0[1].endswith("RangeInclusive::<Idx>::start")
-    if len(lt) == 1:
-        sw = flow.next_switch(tb, lt[0][1]["t"]) if okl else None
-        ed = flow.switch_edges(tb, sw) if sw is not None else None
-        ext = flow.find_calls(tb, re.compile(r"Vec::<T, A>::extend_from_slice$"))
-        if ed is None:
-            okl = False
-        else:
-            dom = tb.dominators()
-            wrapped = [(bb, t) for bb, t in ext if flow.dominates(dom, ed[1], bb)]
-            straight = [(bb, t) for bb, t in ext if flow.dominates(dom, ed[0], bb)]
-            def kind(t):
-                e = flow.expr_of(tb, t["args"][1], max_depth=10)
-                if e[0] == "call" and e[1].endswith("Index::index"):
-                    r = e[2][1]
-                    if r[0] == "agg" and isinstance(r[1], tuple):
-                        return r[1][1]
-                    if r[0] == "call" and r[1].endswith("CircularBuf::range"):
-                        return "whole"
-                return "?"
-            okl = okl and [kind(t) for _, t in sorted(wrapped)] == ["RangeFrom", "RangeToInclusive"] and [kind(t) for _, t in straight] == ["whole"]
-    ctx.ob("RING-ops", "take:wrap-arms", okl, "end < start => data[start..] then data[..=end]; otherwise data[start..=end]" if okl else "the wrapped read does not copy data[start..] followed by data[..=end] exactly when end < start (bytes reordered or lost at the wrap point)", site_of(tb, lt[0][0]) if lt else site_of(tb))
+    bad = None
+    if len(rg) == 1:
+        RC = ("call", P + "CircularBuf::range", tuple(flow.expr_of(tb, a, max_depth=20) for a in rg[0][1]["args"]))
+        dom = tb.dominators()
+        eg = flow.edge_guards(tb)
+        ext = sorted(flow.find_calls(tb, re.compile(r"Vec::<T, A>::extend_from_slice$")), key=lambda x: x[0])
+        # program order: a call that dominates another comes first
+        ext.sort(key=lambda x: sum(1 for y in ext if flow.dominates(dom, y[0], x[0])))
+
+        def bound_nodes(e, out):
+            """sub-expressions that denote the start / the end of the range() result"""
+            if not isinstance(e, tuple):
+                return
+            x = flow.strip_casts(e)
+            if x[0] == "call" and x[1].endswith("RangeInclusive::<Idx>::start") and flow.strip_casts(x[2][0]) == RC:
+                out[e] = "s"
+            elif x[0] == "call" and x[1].endswith("RangeInclusive::<Idx>::end") and flow.strip_casts(x[2][0]) == RC:
+                out[e] = "e"
+            elif x[0] == "proj" and x[1][0] == "call" and x[1][1].endswith("RangeInclusive::<Idx>::into_inner") and flow.strip_casts(x[1][2][0]) == RC and x[2:] in ((0,), (1,)):
+                out[e] = "s" if x[2] == 0 else "e"
+            for y in e[1:]:
+                if isinstance(y, tuple):
+                    if y and isinstance(y[0], str):
+                        bound_nodes(y, out)
+                    else:
+                        for z in y:
+                            bound_nodes(z, out)
+
+        nodes = {}
+        slices = []
+        for bb, t in ext:
+            se = flow.expr_of(tb, t["args"][1], max_depth=14)
+            bound_nodes(se, nodes)
+            slices.append((bb, se))
+        for tgt, f in eg:
+            bound_nodes(("t", f[1], f[2] if f[2] is not None else ("const", 0)), nodes)
+        try:
+            if not slices:
+                raise NoEval("take() appends nothing to its result")
+            for N in range(1, 7):
+                for st in range(N):
+                    for en in range(N):
+                        env = {k: (st if v == "s" else en) for k, v in nodes.items()}
+                        cells = []
+                        for bb, se in slices:
+                            if not all(guard_holds(f, env) for tgt, f in eg if flow.dominates(dom, tgt, bb) and ("RangeInclusive" in str(f) or any(str(k) in str(f) for k in nodes))):
+                                continue
+                            x = flow.strip_casts(se)
+                            if not (x[0] == "call" and re.search(r"Index(Mut)?::index(_mut)?$", x[1]) and flow.strip_casts(x[2][0]) == ("arg", 1, "data")):
+                                raise NoEval("a slice appended by take() is not a slice of self.data")
+                            r = flow.strip_casts(x[2][1])
+                            if r == RC:
+                                lo, hi = st, en
+                            elif r[0] == "agg" and isinstance(r[1], tuple) and r[1][1] == "RangeFrom":
+                                lo, hi = ieval(r[2][0], env), N - 1
+                            elif r[0] == "agg" and isinstance(r[1], tuple) and r[1][1] == "RangeToInclusive":
+                                lo, hi = 0, ieval(r[2][0], env)
+                            elif r[0] == "agg" and isinstance(r[1], tuple) and r[1][1] == "RangeTo":
+                                lo, hi = 0, ieval(r[2][0], env) - 1
+                            elif r[0] == "agg" and isinstance(r[1], tuple) and r[1][1] == "Range":
+                                lo, hi = ieval(r[2][0], env), ieval(r[2][1], env) - 1
+                            elif r[0] == "call" and r[1].endswith("RangeInclusive::<Idx>::new"):
+                                lo, hi = ieval(r[2][0], env), ieval(r[2][1], env)
+                            else:
+                                raise NoEval("slice bounds " + str(r)[:50])
+                            if lo > hi + 1 or hi >= N or lo < 0:
+                                raise NoEval(f"capacity {N}, range {st}..={en}: slice data[{lo}..={hi}] is out of order / out of bounds (panics)")
+                            cells += list(range(lo, hi + 1))
+                        want = [(st + k) % N for k in range((en - st) % N + 1)]
+                        if cells != want and bad is None:
+                            bad = f"capacity {N}: the read range {st}..={en} {'wraps and ' if en < st else ''}designates cells {want} but take() copies cells {cells}: bytes are reordered, lost or duplicated at the wrap point"
+        except NoEval as ex:
+            bad = f"cannot evaluate the cells copied by take() ({ex})"
+    else:
+        bad = "take() does not compute one range"
+    ctx.ob("RING-ops", "take:wrap-arms", bad is None, "for every capacity <= 6 and every range, take() copies exactly the cells of the range in order (split at the wrap point)" if bad is None else bad, site_of(tb, rg[0][0]) if rg else site_of(tb))
     # write side
     rg = flow.find_calls(nb, re.compile(r"CircularBuf::range$"))
     ic = flow.find_calls(wb, re.compile(r"CircularBuf::inc$"))
